@@ -15,7 +15,7 @@
                measured from the Go runtime by the harness) reproduces every observation of the session
    c10_is    : every observed outcome is the outcome the SPECIFICATION assigns to (program, arguments,
                consumption) alone - sp_prog, no heap, no history *)
-From P2 Require Import Base.Prelude Heap.ListHeap Heap.MapHeap Heap.FuncState Heap.MapState.
+From P2 Require Import Base.Prelude Heap.ListHeap Heap.MapHeap Heap.FuncState Heap.MapState Heap.MixState.
 Local Open Scope nat_scope.
 
 Inductive rep := R3 (present : bool) (len cap : nat).
@@ -153,12 +153,56 @@ Definition mcase_im (c : mcase) : bool :=
 Definition mcase_is (c : mcase) : bool :=
   match c with MCase p args obs => oz_eqb (sp_mprog p args) obs end.
 
-Definition c10_case := (N * list event * list xobs * list mcase)%type.
-Definition c10_id (c : c10_case) : N := fst (fst (fst c)).
+(* the evaluations of ONE function of the MIXED fragment (Heap/MixState.v: lists and maps in one state, map literals
+   built per evaluation) that took place in a session, in the order of the session: arguments, consumption, observed
+   outcome.  The model generates the program on a new generator and runs the evaluations in this order on its two heaps
+   (the list constant reached through the maps changes its representation on the way); what other functions did in
+   between does not matter by C10_mixed_eval_history_independent - if the implementation depended on it, it shows here.
+   xprog_typed: the program is well typed (Heap/MixState.v xprog_wt: the key of a list-valued entry / let starts with
+   `l`, every other key does not - the model's handles are untyped) and the body folds nothing at Generate time *)
+Inductive xcase := XCase (p : xprog) (evals : list (list Z * nat * xoutcome)).
+
+Definition xprog_typed (p : xprog) : bool :=
+  xprog_wt p && match xp_body p with XB b => body_nofold b | XBStr _ => true end.
+
+Definition xoutcome_eqb (a b : xoutcome) : bool :=
+  match a, b with
+  | XO x, XO y => outcome_eqb x y
+  | XOStr s, XOStr t => str_eqb s t
+  | _, _ => false
+  end.
+
+Fixpoint xsess_im (cp : caps) (g : xgstate) (evs : list (list Z * nat * xoutcome)) : bool :=
+  match evs with
+  | [] => true
+  | (args, j, o) :: r =>
+      let '(h1, mh1, o') := xeval_in cp g 0 args j in
+      xoutcome_eqb o' o && xsess_im cp (mkXG h1 mh1 (xg_funcs g)) r
+  end.
+
+Definition xcase_im (cp : caps) (c : xcase) : bool :=
+  match c with
+  | XCase p evs =>
+      let g := xgenerate cp new_xgenerator p in
+      xprog_typed p && (length (xg_funcs g) =? 1) && xsess_im cp g evs
+  end.
+
+Definition xcase_is (c : xcase) : bool :=
+  match c with
+  | XCase p evs =>
+      forallb (fun e => match sp_xprog p (fst (fst e)) (snd (fst e)) with
+                        | Some o => xoutcome_eqb o (snd e)
+                        | None => false
+                        end) evs
+  end.
+
+Definition c10_case := (N * list event * list xobs * list mcase * list xcase)%type.
+Definition c10_id (c : c10_case) : N := fst (fst (fst (fst c))).
 
 Definition c10_im (cp : caps) (c : c10_case) : bool :=
-  let hist := snd (fst (fst c)) in
-  forallb event_ok hist && all2 xobs_eqb (model_session cp new_generator hist) (snd (fst c)) && forallb mcase_im (snd c).
+  let hist := snd (fst (fst (fst c))) in
+  forallb event_ok hist && all2 xobs_eqb (model_session cp new_generator hist) (snd (fst (fst c))) &&
+  forallb mcase_im (snd (fst c)) && forallb (xcase_im cp) (snd c).
 
 (* specification side: the programs generated so far, in order; every observed outcome is sp_prog's *)
 Fixpoint spec_session (progs : list prog) (hist : list event) (obs : list xobs) : bool :=
@@ -175,7 +219,8 @@ Fixpoint spec_session (progs : list prog) (hist : list event) (obs : list xobs) 
   | _, _ => false
   end.
 
-Definition c10_is (c : c10_case) : bool := spec_session [] (snd (fst (fst c))) (snd (fst c)) && forallb mcase_is (snd c).
+Definition c10_is (c : c10_case) : bool :=
+  spec_session [] (snd (fst (fst (fst c)))) (snd (fst (fst c))) && forallb mcase_is (snd (fst c)) && forallb xcase_is (snd c).
 
 (* capacity policies from measured tables (index = number of elements; beyond the table: exactly n) *)
 Definition caps_of_tables (ev ap : list nat) : caps :=
